@@ -149,9 +149,13 @@ PoolC03 == SetToSeq(MultiCtx \cup OpSet \cup {U(a, b) : a \in OpSet, b \in OpSet
 (***************************************************************************)
 (* C18: sub-queries compose like steps                                     *)
 (***************************************************************************)
-PathPrefixes == << Abs(<<DoS, Step("child", T_any)>>), Abs(<<DoS, Step("child", T_name("", <<"b">>))>>), Abs(<<DoS, Step("attribute", T_any)>>),
+PathPrefixes == << Abs(<<DoS, Step("child", T_any), Step("ancestor", T_any)>>),             \* a prefix that ends in a reverse axis
+               Abs(<<DoS, Step("child", T_any), Step("preceding-sibling", T_node)>>), Abs(<<DoS, Step("namespace", T_any)>>),
+               Abs(<<DoS, Step("child", T_any)>>), Abs(<<DoS, Step("child", T_name("", <<"b">>))>>), Abs(<<DoS, Step("attribute", T_any)>>),
                Abs(<<DoS, Step("child", T_text)>>), Abs(<<Step("child", T_any)>>) >>
-PathSuffixes == << <<Step("parent", T_node)>>, <<Step("ancestor", T_any)>>, <<Step("following-sibling", T_any)>>,
+PathSuffixes == << <<Step("self", T_any)>>, <<Step("self", T_name("", <<"x">>))>>, <<Step("ancestor-or-self", T_any)>>, <<Step("descendant-or-self", T_any)>>,
+               <<Step("parent", T_node), Step("self", T_name("", <<"a">>))>>, <<StepP("self", T_node, <<Rel(<<Step("self", T_any)>>)>>)>>,
+               <<Step("parent", T_node)>>, <<Step("ancestor", T_any)>>, <<Step("following-sibling", T_any)>>,
                <<Step("preceding", T_node)>>, <<Step("child", T_any), Step("child", T_any)>>, <<Self>>,
                <<StepP("preceding-sibling", T_any, <<N(1)>>)>>, <<Step("parent", T_node), Step("attribute", T_any)>>,
                <<StepP("following", T_any, <<LastE>>)>>, <<Step("descendant-or-self", T_node), Step("child", T_text)>> >>
